@@ -216,7 +216,7 @@ StepLive(s, c) ==
   CASE c.op = "Push" ->
          IF s.haspol
          THEN LET r == PushPol(s.e, s.cap, s.acc, c.xs, <<>>) IN
-              [s |-> [s EXCEPT !.e = r.e, !.err = IF r.rej THEN "set" ELSE s.err],
+              [s |-> [s EXCEPT !.e = r.e, !.err = IF r.rej THEN "policy" ELSE s.err],
                ret |-> r.log]
          ELSE [s |-> [s EXCEPT !.e = PushAll(s.e, s.cap, "nnest" \in s.opts, c.xs)],
                ret |-> <<>>]
@@ -273,7 +273,7 @@ StepLive(s, c) ==
     [] c.op = "SetValidityPolicy" -> [s |-> [s EXCEPT !.vpol = c.mode], ret |-> <<>>]
     [] c.op = "SetPresentationPolicy" ->
          \* a BASIC stack refuses a presentation policy and records an error
-         IF s.kind = "BASIC" THEN [s |-> [s EXCEPT !.err = "set"], ret |-> <<>>]
+         IF s.kind = "BASIC" THEN [s |-> [s EXCEPT !.err = "lib"], ret |-> <<>>]
          ELSE [s |-> [s EXCEPT !.ppol = c.on], ret |-> <<>>]
     [] c.op = "SetEqualityPolicy" -> [s |-> [s EXCEPT !.epol = c.on], ret |-> <<>>]
     [] c.op = "SetUnmarshaler" -> [s |-> [s EXCEPT !.upol = c.on], ret |-> <<>>]
@@ -284,7 +284,7 @@ StepLive(s, c) ==
          \* through Push (so capacity, no-nesting and a push policy apply)
          [s |-> IF s.haspol
                 THEN LET r == PushPol(s.e, s.cap, s.acc, <<MarshalVal(c)>>, <<>>) IN
-                     [s EXCEPT !.e = r.e, !.err = IF r.rej THEN "set" ELSE s.err]
+                     [s EXCEPT !.e = r.e, !.err = IF r.rej THEN "policy" ELSE s.err]
                 ELSE [s EXCEPT !.e = PushAll(s.e, s.cap, "nnest" \in s.opts, <<MarshalVal(c)>>)],
           ret |-> <<"nil">>]
 
@@ -299,7 +299,7 @@ Step(s, c) ==
                 ret |-> <<>>]
   ELSE IF c.op = "SetErr" THEN       \* allowed on a read-only instance
        IF ~s.live THEN Keep(s, <<>>)
-       ELSE [s |-> [s EXCEPT !.err = IF c.on THEN "set" ELSE "none"], ret |-> <<>>]
+       ELSE [s |-> [s EXCEPT !.err = IF c.on THEN "user" ELSE "none"], ret |-> <<>>]
   ELSE IF c.op = "Index" THEN
        Keep(s, IF s.live THEN IndexRet(s.e, s.opts, c.i) ELSE <<Nil, "false">>)
   ELSE IF c.op = "Front" THEN
@@ -328,7 +328,7 @@ Step2(src, dst, dform) ==
   ELSE IF dst.haspol
        THEN LET r == PushEachPol(dst.e, dst.cap, dst.acc, src.e, FALSE) IN
             [src |-> src,
-             dst |-> [dst EXCEPT !.e = r.e, !.err = IF r.rej THEN "set" ELSE dst.err],
+             dst |-> [dst EXCEPT !.e = r.e, !.err = IF r.rej THEN "policy" ELSE dst.err],
              ret |-> <<B2S(r.e = dst.e \o src.e)>>]
        ELSE LET ne == PushAll(dst.e, dst.cap, "nnest" \in dst.opts, src.e) IN
             [src |-> src, dst |-> [dst EXCEPT !.e = ne], ret |-> <<B2S(ne = dst.e \o src.e)>>]
